@@ -134,7 +134,13 @@ func TestVerifC03(t *testing.T) {
 				if err1 != nil || err2 != nil {
 					return map[string]any{"error": "bad janitor entry address"}
 				}
-				keys = append(keys, bpfTuplesKeyFromAddrPorts(src, dst, e.Proto))
+				nk := bpfTuplesKeyFromAddrPorts(src, dst, e.Proto)
+				for _, k0 := range keys {
+					if k0 == nk {
+						return map[string]any{"error": "janitor case lists one key twice (a map has one entry per key)"}
+					}
+				}
+				keys = append(keys, nk)
 				var v bpfConnState
 				v.State = e.State
 				v.LastSeenNs = e.Last
